@@ -1,5 +1,5 @@
 """Per-property pipelines of ./check."""
-import os, sys, json, random, hashlib
+import os, sys, json, random, hashlib, re
 from core import *
 import tour
 
@@ -906,7 +906,65 @@ def c16(ctx):
     ctx.assumptions += ["operations whose running time is quadratic in the data (pretty serialisers, GRAPH ?g over a Vec dataset) run at a tenth of the size", "Linux, x86-64: the thread stack grows downwards and is mapped contiguously"]
 
 
+def c08(ctx):
+    dev = build()
+    rel = build(release=True)
+    per = 1500 if ctx.quick() else 25000
+    tr = os.path.join(ctx.traces, "parse.ndjson")
+    parts = []
+    for prof, binary in (("dev", dev), ("release", rel)):
+        part = os.path.join(ctx.traces, "parse_%s.ndjson" % prof)
+        sv(binary, ["parse", "--seed", ctx.seed, "--per-parser", per, "--out", part], ctx=ctx, timeout=20000)
+        parts.append(part)
+    with open(tr, "w") as f:
+        for part in parts:
+            f.write(open(part).read())
+    trace = read_trace(tr)
+    mism = trace_check(ctx, "Trace_Parse", tr, timeout=6000)
+    bad = set()
+
+    def klass(desc):
+        for w in ("nested", "tokens of", "valid document", "UTF", "in front", "at the end", "in the middle", "empty input", "NUL", "high bit", "deleted", "truncated", "flipped", "replaced", "inserted"):
+            if w in desc:
+                return {"nested": "deep-nesting", "tokens of": "long-tokens", "valid document": "valid", "deleted": "single-edit", "truncated": "single-edit", "flipped": "single-edit", "replaced": "single-edit", "inserted": "single-edit"}.get(w, "encoding")
+        return "other"
+    for line, fields in mism:
+        e = trace[line - 1]
+        bad.add(line)
+        code, idx = fields[0], int(fields[1])
+        inp = e if e["ev"] == "Parse" else e.get("input", {})
+        text = bytes(inp.get("input", [])).decode("utf-8", "replace")[:300]
+        if e["ev"] == "Parse" and idx:
+            t = e["terms"][idx - 1]
+            what = "%s %r" % (t["kind"], uncps(t["v"]))
+        else:
+            what = e.get("msg") or e.get("why", "")
+        detail = "%s: %s parser [%s] on %s (%d bytes%s): %s" % (code, inp.get("parser"), inp.get("profile"), inp.get("desc"), inp.get("len", 0), (": %r" % text) if text else "", what[:200])
+        key = "%s/%s/%s" % (code, inp.get("parser"), klass(inp.get("desc", "")))
+        if code == "process-died-or-hung":
+            key += "/" + inp.get("desc", "").split(" nested")[0].replace(" ", "-")
+        if code == "panic":
+            key = "panic/%s/%s" % (inp.get("parser"), re.sub(r"[^A-Za-z0-9]+", "-", (e.get("msg") or "")[:60]).strip("-"))
+        ctx.violations.append({"key": key, "detail": detail, "event": e, "trace": tr, "line": line})
+    ctx.traces_validated += len(trace) - len(bad)
+    nterms = 0
+    for e in trace:
+        if e["ev"] == "Parse":
+            ctx.distinct.add(h([e["parser"], e["profile"], e["idx"]]))
+            nterms += len(e["terms"])
+    oks = sum(1 for e in trace if e["ev"] == "Parse" and e["out"] == "ok")
+    ctx.samples += [{"parser": e["parser"], "profile": e["profile"], "input": e["desc"], "out": e["out"], "statements": e["n"], "terms": len(e["terms"])} for e in trace[7:len(trace):max(1, len(trace) // 8)] if e["ev"] == "Parse"]
+    ctx.rule = ("Trace_Parse.tla: a run of a parser on any byte string ends with statements or an error value - never a panic or a dead process - and every term handed out (also before an error) is valid: "
+                "IRIs by RFC 3987 (Iri.tla; absolute for strict parsers), blank node labels, language tags and variable names by Validity.tla, and accepted by the toolkit's own validators. "
+                "8 parsers (N-Triples, N-Quads, Turtle, TriG, generalized N-Quads / TriG, RDF/XML, JSON-LD) x {dev, release} x %d inputs each: valid documents (IPv6 hosts, empty segments, percent-escapes, non-ASCII labels and tags, "
+                "collections, property lists, quoted triples, XML parse types, JSON-LD lists / graphs / @json), EVERY deletion / truncation / bit flip of them while the budget lasts then seeded byte replacements and insertions "
+                "(incl. invalid UTF-8), nesting of collections / property lists / quoted triples / XML elements / JSON arrays 10, 1000 and 100000 deep, tokens of 10^2..10^6 characters; each input in a child process on a 2 MiB stack. "
+                "%d runs yielded statements, %d terms were judged. distinct = (parser, profile, input)" % (per, oks, nterms))
+    ctx.assumptions += ["terms longer than 120 characters are judged by the toolkit's validator only", "JSON-LD without remote contexts"]
+
+
 FAMILIES = {
+    "C08": c08,
     "C16": c16,
     "C20": c20,
     "C19": c19,
